@@ -5,6 +5,7 @@ import (
 	"os"
 	"path/filepath"
 	"strings"
+	"time"
 
 	"verif/internal/gen"
 	"verif/internal/h"
@@ -55,7 +56,9 @@ func c10vars(c *h.Ctx, idx int, staged bool, assign string, r *h.Rand) {
 	format += " Root=[%s] TempDir=[%s] Args=[%s] ArgsList=[%s]"
 	argv += " '{{.Root}}' '{{.TempDir}}' '{{.Args}}' '{{range .ArgsList}}<{{.}}>{{end}}'"
 	cmd := fmt.Sprintf("printf '%s\\n'%s >> '%s'", format, argv, trace)
-	hook := func(tag string) string { return fmt.Sprintf("printf '%s\\n'%s >> '%s'", strings.Replace(format, "VARS", tag, 1), argv, trace) }
+	hook := func(tag string) string {
+		return fmt.Sprintf("printf '%s\\n'%s >> '%s'", strings.Replace(format, "VARS", tag, 1), argv, trace)
+	}
 	cfg := gen.OM{{K: "variables", V: defs[0]}, {K: "tasks", V: gen.OM{{K: "t", V: gen.OM{{K: "before", V: []interface{}{hook("BEFORE")}}, {K: "command", V: []interface{}{cmd}}, {K: "after", V: []interface{}{hook("AFTER")}}, {K: "variables", V: defs[2]}}}}}}
 	target := "t"
 	if staged {
@@ -293,7 +296,7 @@ func c10undef(c *h.Ctx, idx, n, pos int, where string, allow bool) {
 }
 
 func c10(c *h.Ctx) {
-	c.Rule = "CLI: every non-empty subset of {config variables, --set, task, stage} (15, stage run) and of the first three (7, direct run) defines its own name, values ascending / descending / shuffled; built-ins rendered; argument vectors of 0..5 words from a pool containing target names, a=b, -v, --x, -- after 1..2 targets in two invocation forms; undefined variable at every position of 1..4 commands, in before and in dir, with/without allow_failure. non-trivial = every distinct (name, winner) / argument vector with >=1 word / undefined-variable position"
+	c.Rule = "in-process: 4..10 parallel stages, 2..5 commands each, every command a distinct template over the stage's own variables, under the real scheduler and runner, plain and under the race detector (each stage must execute its own text rendered with its own values); CLI: every non-empty subset of {config variables, --set, task, stage} (15, stage run) and of the first three (7, direct run) defines its own name, values ascending / descending / shuffled; built-ins rendered; argument vectors of 0..5 words from a pool containing target names, a=b, -v, --x, -- after 1..2 targets in two invocation forms; undefined variable at every position of 1..4 commands, in before and in dir, with/without allow_failure. non-trivial = every distinct (name, winner) / argument vector with >=1 word / undefined-variable position"
 	c.Assumptions = []string{"the value of Root is not examined, only that it is defined", "argv with `--` before any target is outside the statement"}
 	var jobs []func()
 	idx := 0
@@ -329,6 +332,11 @@ func c10(c *h.Ctx) {
 		}
 	}
 	h.Par(len(jobs), 16, func(i int) { jobs[i]() })
+	// in-process: parallel stages whose commands are templates over their own variables (real scheduler and runner),
+	// plain and under the race detector
+	anchors := []string{"pkg/utils/util.go", "pkg/runner/compiler.go", "pkg/variables/variables.go"}
+	runWorkers(c, workerOpts{Mode: "render", Shards: 4, Timeout: 15 * time.Minute})
+	runWorkers(c, workerOpts{Mode: "render", Race: true, Shards: 4, Timeout: 15 * time.Minute, Anchors: anchors})
 }
 
 func init() { checks["C10"] = checkDef{"exploration", c10} }
